@@ -212,6 +212,16 @@ def focused(tier):
     out.append(cfg("tie 2streams", fam, [node(c=1), node(c=1)],
                    {"A": klass([[1.0], [1.0]], [[1.0], [1.0, 2.0]], route=matrix([[0.0, 1.0], [0.0, 0.0]]))}, K=K - 1,
                    features=["ties"]))
+    # near ties: dates that differ by one unit in the last place (0.15 + 0.15 = 0.3 < 0.1 + 0.2) at DIFFERENT nodes
+    for a1, s1, a2, s2 in ((0.15, 0.15, 0.1, 0.2), (0.1, 0.2, 0.15, 0.15), (0.1, 0.7, 0.3, 0.5)):
+        out.append(cfg("near tie %s+%s vs %s+%s" % (a1, s1, a2, s2), "F-near-tie", [node(c=1), node(c=1)],
+                       {"A": klass([{"script": [a1, 1.0e9]}, {"script": [a2, 1.0e9]}], [[s1, 1.0], [s2]], route=matrix([[0.0, 0.0], [1.0, 0.0]]))},
+                       K=None, T=4.0, features=["near_ties"]))
+    # the waiting customer with the earliest timed class change reneges first; others keep their pending changes
+    out.append(cfg("renege of the next class-change candidate, then a quiet period", "F-renege-cct", [node(c=1)],
+                   {"A": klass([{"script": [0.5, 0.5, 0.5, 5.0, 1.0e9]}], [[8.0, 3.0]], prio=1, renege=[[1.0, 9.0]], cct={"B": [2.0, 3.0]}),
+                    "B": klass([None], [[8.0, 3.0]], prio=0, renege=[[9.0]])},
+                   K=None, T=12.0, features=["reneging", "cct"]))
     fam = "F-zero"
     out.append(single("zero service", fam, c=1, K=K, arr=[0.0, 1.0], srv=[0.0, 1.0], features=["zero"]))
     out.append(tandem("zero tandem", fam, c=(1, 1), caps=(None, 0), K=K, arr=[0.0, 1.0], srv=[[0.0, 1.0], [1.0, 0.0]], features=["zero", "blocking"]))
